@@ -16,15 +16,18 @@ def iterate_axis_combinations(items):
         Frozen set of axes for initial double checking with metric dimensions
     """
     items_set = frozenset(items)
+    # unique items in the given order, so that the enumeration does not depend on the
+    # iteration order of a set
+    items_list = list(dict.fromkeys(items))
     yield (items_set,)
     N = len(items)
     for nleft in range(N - 1, 0, -1):
         nright = N - nleft
         for sub_loop, sub_items in itertools.product(
             range(min(nright, nleft), 0, -1),
-            itertools.combinations(items_set, nleft),
+            itertools.combinations(items_list, nleft),
         ):
             these = frozenset(sub_items)
-            those = items_set - these
+            those = [i for i in items_list if i not in these]
             others = [frozenset(i) for i in itertools.combinations(those, sub_loop)]
             yield (these,) + tuple(others)
